@@ -1,11 +1,14 @@
 """The simulated store: the only "disk" the system under test ever sees.
 
-A MutableMapping around a private dict (not a dict subclass), so every path the
-library can take to the data — [], in, del, pop, update, setdefault, get, items —
-funnels through the primitive methods below and cannot bypass counters, monitors
-or fault directives.
+A *minimal* store around a private dict: neither a dict subclass nor a
+collections.abc mapping.  It offers exactly the protocol the library is entitled to
+(what its own ScratchDB wrapper offers plus what ScratchDB needs from the store it
+wraps): db[k], db[k] = v, del db[k], k in db, db.pop(k, default), keys(), iteration
+and len().  There is no get / update / setdefault / items / values / copy: code
+that starts to rely on them fails here exactly as it would on a ScratchDB or on a
+store that overrides only the item protocol.  Every access funnels through the
+primitive methods below and cannot bypass counters, monitors or fault directives.
 """
-from collections.abc import MutableMapping
 
 from eth_hash.auto import keccak
 
@@ -15,7 +18,22 @@ class InjectedStorageError(Exception):
     KeyError nor an OSError: the library must not mistake it for a missing node."""
 
 
-class SimDB(MutableMapping):
+class ShardOffline(KeyError):
+    """The same failure reported by a key-routed store: a KeyError subclass.  A failed
+    *write* is still a failed write, whatever exception family it comes from."""
+
+
+class DiskFull(OSError):
+    """The same failure as an OSError."""
+
+
+FAILURE_KINDS = {"E": InjectedStorageError, "K": ShardOffline, "O": DiskFull}
+
+
+_NOTHING = object()
+
+
+class SimDB:
     def __init__(self, initial=None):
         self._d = dict(initial) if initial else {}
         # counters
@@ -71,7 +89,8 @@ class SimDB(MutableMapping):
             self.fired = ("set", fa[0], fa[1])
             if fa[1]:
                 self._store(key, value)
-            raise InjectedStorageError(f"injected failure of write #{fa[0]}")
+            kind = FAILURE_KINDS[fa[2] if len(fa) > 2 else "E"]
+            raise kind(key) if kind is ShardOffline else kind(f"injected failure of write #{fa[0]}")
         self._store(key, value)
 
     def _store(self, key, value):
@@ -112,6 +131,20 @@ class SimDB(MutableMapping):
 
     def __len__(self):
         return len(self._d)
+
+    def keys(self):
+        return self._d.keys()
+
+    def pop(self, key, default=_NOTHING):
+        """Read, then delete (both through the primitives, like MutableMapping.pop)."""
+        try:
+            value = self[key]
+        except KeyError:
+            if default is _NOTHING:
+                raise
+            return default
+        del self[key]
+        return value
 
     # -- simulator side (never used by the library) -------------------------
     def _cb(self, kind, key):
